@@ -339,6 +339,26 @@ def r17_7(cx):
                      % (guards, show(a)[:40], show(c)[:40], op))
 
 
+    # the current chunk is kept only where it has room for the request: `remaining() >= len` on the way to every
+    # return that does not create a fresh chunk (a weaker test hands alloc_or_die a chunk that is one byte short
+    # and its assertion panics on an exact near-fit)
+    ec = prog.fn(ARENA + '::ensure_capacity_internal')
+    nw = list(ec.calls('AllocCache::new'))
+    cx.require(len(nw) == 1, 'ensure_capacity_internal no longer creates exactly one cache')
+    avoid = ec.reachable(0, cut_blocks=[nw[0].bb])
+    committed = {b for b in avoid if b != nw[0].bb and nw[0].bb not in ec.reachable(b) and set(ec.returns()) & (ec.reachable(b) | {b})}
+    preds = ec.preds()
+    entries = sorted(b for b in committed if any(p in avoid and p not in committed for p in preds[b]) or b == 0)
+    cx.count_sites()
+    ok = bool(entries)
+    for b in entries:
+        rels = [r for r in (as_relation((e, v)) for e, v, ed in ec.facts_at(b)) if r]
+        if not any((r[0] == 'Ge' or r[0] == 'Gt') and is_call(r[1], 'AllocCache::remaining') and r[2].strip().kind == 'param' and r[2].strip().info['i'] == 2 for r in rels):
+            ok = False
+    cx.check(ok, 'reuse-only-with-room', ec, ec.loc(entries[0]) if entries else None, 'the cached chunk is returned only where cache.remaining() >= len',
+             fail_detail='ensure_capacity_internal can keep a chunk without room for the request: the allocation that follows asserts (panics) on a near-fit')
+
+
 def r17_8(cx):
     """what the delivered bytes stand on: no other arena hands out the same bytes (R5.9), anchored input is backed until drained and its anchors are appended, never overwritten (R5.3, R5.7)"""
     from . import c05
